@@ -78,6 +78,9 @@ func errClass(err error) string {
 
 var errInjected = &os.PathError{Op: "injected", Path: "fault", Err: syscall.EIO}
 
+// errWriteback: an injected Close failure after which the data written through the handle is lost
+var errWriteback = &os.PathError{Op: "injected-writeback", Path: "fault", Err: syscall.EIO}
+
 // MCall is one FS-interface call in canonical form (method + string arguments).
 type MCall struct {
 	M string   `json:"m"`
